@@ -526,11 +526,11 @@ class Explorer(object):
             _CUR[0] = self
             value = None
             exc = None
+            aborted = False
             try:
                 value = fn()
             except PathAbort:
-                _CUR[0] = prev
-                continue
+                aborted = True              # harness is not interested in this path; its siblings still are
             except Exception as e:          # outcome of the code under test
                 exc = e
             finally:
@@ -538,7 +538,10 @@ class Explorer(object):
             self.stats['paths'] += 1
             pc = self._pc_terms()
             assumes = [k[1] for k in self._trace if k[0] == 'a']
-            results.append(PathResult(pc, assumes, value, exc, notes=self.notes))
+            if aborted:
+                self.stats['aborted'] = self.stats.get('aborted', 0) + 1
+            else:
+                results.append(PathResult(pc, assumes, value, exc, notes=self.notes))
             # schedule flips of the new decisions
             nb = 0
             for idx, k in enumerate(self._trace):
